@@ -327,6 +327,8 @@ def run(ctx) -> None:
     for n in ([11, 13, 16, 17][ctx.shard % 4:][:1] + [18 if ctx.shard % 2 else 12]) if quick else range(11, 21):
         if quick or n % ctx.nshards == ctx.shard % ctx.nshards or n in (17, 18):
             unanimity_case(ctx, n)
+    m0 = np.array([[float(rng.randint(0, 3)) for _ in range(4)] for _ in range(4)])      # guaranteed minimum: one graph game
+    run_case(ctx, {"n": 4, "family": "graph", "values": [], "graph": m0.tolist(), "perm_max": perm_max})
     ns = [1, 2, 3, 3, 4, 4, 5, 5, 6, 6, 7, 8, 9] + ([10] if not quick else [])
     while not ctx.out_of_time(2.0):
         n = rng.choice(ns)
